@@ -48,6 +48,7 @@ DecJudge(scn, obs) ==
       MapOK == {<<obs.vout[i].n, obs.vout[i].v>> : i \in 1..Len(obs.vout)} = {<<ref[i].k.v, <<ref[i].v.v>>>> : i \in 1..Len(ref)}
   IN IF ~asserted THEN [ok |-> TRUE, sig |-> DecSig(scn, "unasserted")]
      ELSE IF ~JarBinding(scn.jar, ref) THEN [ok |-> FALSE, sig |-> DecSig(scn, "harness-mismatch")]
+     ELSE IF ~obs.rot_same THEN [ok |-> FALSE, sig |-> DecSig(scn, "depends-on-cookie-order")]   \* the same pairs, last one first
      ELSE IF obs.de # "ok" THEN [ok |-> FALSE, sig |-> DecSig(scn, "de-err:" \o obs.errc)]
      ELSE IF scn.ty = "CkMap" THEN (IF MapOK THEN [ok |-> TRUE, sig |-> DecSig(scn, "ok")] ELSE [ok |-> FALSE, sig |-> DecSig(scn, "differs")])
      ELSE IF \A i \in 1..Len(fs) : FieldOK(fs[i]) THEN [ok |-> TRUE, sig |-> DecSig(scn, "ok")]
